@@ -3,7 +3,12 @@ package main
 // Helpers to re-run a rule set of one property as a necessary condition of another and
 // re-label its obligations.
 
-import "strings"
+import (
+	"go/types"
+	"strings"
+
+	"golang.org/x/tools/go/ssa"
+)
 
 // copyItems copies the items of tmp whose rule is fromRule (and whose text contains one of
 // the given fragments, if any) into r under newRule; returns how many were copied.
@@ -48,4 +53,63 @@ func clientLoopItems(c *Ctx, r *Report, fromRule, newRule string, contains ...st
 			r.undecided(newRule, fnID(ci.do), "read-loop rule produced no obligation", c.pos(ci.do.Pos()))
 		}
 	}
+}
+
+// installedFn is a function a client constructor leaves in parseResponseFunc/asProtocolErrorFunc.
+type installedFn struct {
+	ctor   *ssa.Function
+	client string
+	parse  *ssa.Function // nil when not static (user supplied)
+	asErr  *ssa.Function
+	rtu    bool
+	pos    string
+}
+
+// installedFns evaluates every constructor of Client / SerialClient and reads the two function
+// fields of the object it returns.
+func installedFns(c *Ctx) []installedFn {
+	var out []installedFn
+	for _, spec := range []struct {
+		name   string
+		serial bool
+	}{{"Client", false}, {"SerialClient", true}} {
+		ci := analyseClient(c, spec.name, spec.serial)
+		for _, fn := range c.allFuncs("") {
+			if fn.Signature.Recv() != nil || fn.Signature.Results().Len() != 1 || fn.Parent() != nil {
+				continue
+			}
+			p, ok := fn.Signature.Results().At(0).Type().(*types.Pointer)
+			if !ok || !types.Identical(p.Elem(), ci.tn) {
+				continue
+			}
+			an := &Analysis{ctx: c, u: newUniverse(), top: fn}
+			fr := an.newFrame(fn, nil, nil)
+			fr.run(dnfTrue())
+			for _, rs := range fr.returns {
+				var obj *Obj
+				switch v := rs.vals[0].(type) {
+				case APtr:
+					obj = v.obj
+				case ARef:
+					if p, ok := v.inner.(APtr); ok {
+						obj = p.obj
+					}
+				}
+				if obj == nil {
+					continue
+				}
+				obj.escaped = false // only constructors store to these unexported fields (C12 R12.1)
+				in := installedFn{ctor: fn, client: spec.name, pos: c.pos(rs.instr.Pos())}
+				if pf, ok := fr.loadPath(obj, pathStr("", ci.parse), ci.st.Field(ci.parse).Type(), rs.instr).(AFunc); ok {
+					in.parse = pf.fn
+					in.rtu = reachesRTUParser(c, pf.fn)
+				}
+				if ef, ok := fr.loadPath(obj, pathStr("", ci.asErr), ci.st.Field(ci.asErr).Type(), rs.instr).(AFunc); ok {
+					in.asErr = ef.fn
+				}
+				out = append(out, in)
+			}
+		}
+	}
+	return out
 }
